@@ -31,7 +31,7 @@ def run_surv(c, m):
     base = dict(m.BASE, Survive=True)
     w3 = dict(base, W=3, NSplits=3, NRecs=2, KeyDigits=123231, OwnerDigits=123, B=2, MaxCkpt=3, MaxKills=3)
     if quick:
-        c01_deep.exhaustive(c, m, dict(base, MaxKills=1), "survivors, 1 kill", ["RestartSame"])
+        c01_deep.exhaustive(c, m, dict(base, NRecs=1, KeyDigits=12), "survivors, 2x1 records, 2 ckpts, 2 kills", ["RestartSame"])
     else:
         c01_deep.exhaustive(c, m, base, "survivors", ["RestartSame"])
         c01_deep.exhaustive(c, m, dict(base, Overlap=True, MaxKills=1), "survivors + overlapping publications, 1 kill", ["RestartSame", "TickOverlap"])
@@ -39,7 +39,7 @@ def run_surv(c, m):
             "restoredWithTables", "publishedAfterRestart")
     n = (60, 30) if quick else (400, 300)
     s = c.seed * 100 + 70
-    extra = dict(c01_deep.DKV, Survive=True)
+    extra = dict(c01_deep.DKV, Survive=True, Chunk=15, StopAfterViolations=5, BudgetS=m.BUDGET[c.tier])
     m.stage(c, c01_deep.replay_generated, c, m, dict(base, KillJob=True, KillDilution=8, MaxKills=2, PubDilution=6), n[0], 110, s, 4, "survivors 2 workers", extra, need)
     m.stage(c, c01_deep.replay_generated, c, m, dict(w3, KillDilution=8, PubDilution=6), n[1], 170, s + 1, 7, "survivors 3 workers B=2", extra, need)
     c.assumptions += [
